@@ -16,6 +16,7 @@ from decimal import Decimal as D
 
 import basana as bs
 from basana.backtesting import exchange as ex, fees, lending, liquidity, errors
+from basana.core import errors as core_errors
 
 DAY = datetime.timedelta(days=1)
 EPOCH = datetime.datetime(2020, 1, 1, tzinfo=datetime.timezone.utc)
@@ -361,7 +362,9 @@ class World:
                 raise ValueError(a)
         except DriverLimit:
             raise
-        except errors.Error as x:
+        except core_errors.Error as x:
+            # (any deliberate basana error is a refusal: the backtesting errors derive from basana.core.errors.Error, which the
+            # dispatcher itself raises e.g. when a request needs the current time before the first event)
             # a bar is not a request: nothing may be raised while the exchange processes it
             raised = ("crash" if a[0] in ("bar", "bar=") else "rejected", type(x).__name__, str(x)[:80])
         except Exception as x:  # noqa: an internal error (assertion, KeyError, decimal error...) is never acceptable
